@@ -20,4 +20,20 @@ CLAIMED = {
   "text": "Bounded symbolic model checking of the bucket key: SerializeComparisonKeys on two rows of two symbolic text cells over the alphabet of every delimiter/tag character (all length combinations within the stated bounds, both --strict-equal and default mode) is injective and does not split; single cells of every value class against csvq's own equality (no merge / no split per normal form); and GROUP BY, DISTINCT, UNION, INTERSECT, EXCEPT and PARTITION BY through the real Select pipeline on 3 rows (thorough 4) with COUNT/MIN/MAX/LISTAGG computed over exactly the rows of each bucket, in first-occurrence order.",
   "note": "Trusted: z3, go/ssa, the interpreter (validated per run). Text bounds: strict mode 0..4 bytes in one column (other column empty; thorough 0..5 | 0..1), default mode 0..1 bytes (thorough 0..2); integers in keys are concretised over small ranges; strconv.ParseFloat on symbolic text is modelled exactly only for texts without digits and i/n; float aggregates (SUM/AVG/STDEV...) and user aggregates are outside; multi-worker grouping order is C12.",
  },
+ "C03": {
+  "text": "Bounded symbolic model checking of SELECT through the real parser and Select pipeline on temporary tables: INNER/LEFT/RIGHT/FULL/CROSS/USING/NATURAL/LATERAL joins, comma joins, a joined subquery (tables of <=2 rows, thorough 3x2, join keys NULL or arbitrary int64) against the multiset the operator definitions yield incl. NULL padding and once-merged USING columns; WHERE, projection, SELECT *, subqueries (scalar correlated, IN, EXISTS), a CTE and a recursive CTE over <=3 rows (thorough 4): kept iff the condition is TRUE, source order and select order preserved.",
+  "note": "Trusted: z3, go/ssa, the interpreter (validated per run). File-backed tables (LoadView from files), larger tables and deeper nesting than the listed statement shapes, field-name ambiguity rules, and the parallel paths (cpu>1, >=160 rows) are outside this check (C12/C13).",
+ },
+ "C05": {
+  "text": "Bounded symbolic model checking of INSERT (VALUES, field list, SELECT), UPDATE, DELETE, REPLACE and ALTER TABLE ADD/DROP/RENAME executed by the real Processor on a temporary table of 3 rows whose cells are NULL or arbitrary int64, with every Go map iteration order explored: resulting table equals the reference edit cell by cell, column order/names as specified, reported affected-row count exact.",
+  "note": "Trusted: z3, go/ssa, the interpreter (validated per run). One statement per run (statement sequences are outside), single-table forms only, files and stdin tables outside (their publication path CachedViews.Set is the same code shape, not executed here).",
+ },
+ "C08": {
+  "text": "Bounded symbolic model checking of failing data-changing statements run by the real Processor: the failure point is chosen by the data (integer division by zero at any row or in any listed value, plus always-failing statements: unknown field, wrong row length, duplicate column, multi-row subquery); on every failing path the published table object, header, records and cells are the very same objects as before, nothing is scheduled for COMMIT and no affected rows are reported.",
+  "note": "Trusted: z3, go/ssa, the interpreter (validated per run). Divisor cells range over [-3,3] (symbolic 64-bit division is out of the solver's reach); temporary tables only - file-backed tables publish through CachedViews.Set at the same program point but LoadView from files is not executed; CREATE TABLE failure (file removal) belongs to C11.",
+ },
+ "C17": {
+  "text": "Bounded symbolic model checking of ROW_NUMBER, RANK, DENSE_RANK, CUME_DIST, PERCENT_RANK, NTILE, FIRST/LAST/NTH_VALUE (with IGNORE NULLS and explicit ROWS frames), LAG/LEAD (offset, default, IGNORE NULLS) and COUNT/MIN/MAX OVER (default and explicit frames, COUNT(*)) through the real parser and Select pipeline on <=3 rows (thorough 4) with a symbolic 2-valued partition column, arbitrary int64 ordering key (ties allowed where the function is tie-insensitive) and NULL-or-int64 values, against the per-partition, per-frame definitions.",
+  "note": "Trusted: z3, go/ssa, the interpreter (validated per run). SUM/AVG/STDEV/MEDIAN/LISTAGG OVER (float results) and user aggregates are outside; PERCENT_RANK of a one-row partition is not judged; partitions larger than 4 rows and frame offsets other than those listed are outside.",
+ },
 }
